@@ -82,6 +82,139 @@ def _sccs(edges):
     return res
 
 
+def _norm_fn(name):
+    """One spelling for function names of the lock table ((*pkg.T).m$1) and of
+    race reports (github.com/.../pkg.(*T).m.func1)."""
+    name = name.split("AdGuardHome/internal/")[-1]
+    name = re.sub(r"\[.*?\]", "", name)
+    name = re.sub(r"\.func(\d+)", r"$\1", name)
+    name = re.sub(r"\.(\d+)(?=$|\$|\.)", r"$\1", name)
+    name = name.replace("(*", "").replace("(", "").replace(")", "").replace("-fm", "")
+    return name
+
+
+def _parse_races(text):
+    """[(kindA, frameA, kindB, frameB, excerpt)] with frame = (function, file, line) of the first
+    frame inside /repo/internal (harness frames excluded)."""
+    res = []
+    for block in text.split("=================="):
+        if "WARNING: DATA RACE" not in block:
+            continue
+        stacks = []
+        for part in re.split(r"\n\s*\n", block):
+            m = re.search(r"(?m)^\s*((?:Previous )?(?:[Ww]rite|[Rr]ead|[Aa]tomic \w+)) at \S+ by (?:goroutine \d+|main goroutine):", part)
+            if not m:
+                continue
+            top = None
+            for fn, f, l in re.findall(r"\n\s+(\S+)\(\)\n\s+(\S+):(\d+)", part):
+                if "/internal/" in f and "zz_verif" not in f and "AdGuardHome" in fn:
+                    top = (fn, "internal/" + f.split("/internal/", 1)[1], int(l))
+                    break
+            stacks.append((m.group(1).replace("Previous ", "").lower(), top, "\n".join(part.strip().splitlines()[:9])))
+        if len(stacks) >= 2:
+            res.append(stacks[:2])
+    return res
+
+
+def _stress(ctx, tbl, known, race, millis, seed):
+    """Search for a failing schedule: the real request path against the real admin
+    handlers (harness/dnsforward/zz_verif_C05_test.go)."""
+    outdir = os.path.join(ctx.workdir, "stress_s%d%s" % (seed, "_race" if race else ""))
+    os.makedirs(outdir, exist_ok=True)
+    repl = {os.path.join(ctx.REPO, "internal/dnsforward/zz_verif_C05_test.go"):
+            os.path.join(ctx.VERIF, "harness/dnsforward/zz_verif_C05_test.go")}
+    if os.environ.get("VERIF_EXTRA_OVERLAY"):
+        for dst, src in json.loads(os.environ["VERIF_EXTRA_OVERLAY"]).items():
+            if dst.startswith("/repo/") and ctx.REPO != "/repo":
+                dst = os.path.join(ctx.REPO, dst[len("/repo/"):])
+            repl[dst] = src
+    ov = os.path.join(outdir, "overlay.json")
+    json.dump({"Replace": repl}, open(ov, "w"))
+    env = ctx.go_env()
+    env.update({"VERIF_SEED": str(seed), "VERIF_OUT": outdir, "VERIF_C05_MS": str(millis),
+                "GORACE": "log_path=%s halt_on_error=0" % os.path.join(outdir, "race")})
+    cmd = ["go", "test", "-overlay", ov, "-tags", "verif", "-count=1", "-vet=off", "-run", "^TestVerifC05Stress$",
+           "-timeout", "%ds" % (millis // 1000 + 240)]
+    if race:
+        cmd.append("-race")
+    cmd.append("./internal/dnsforward/")
+    rc, out = ctx.run(cmd, cwd=ctx.REPO, env=env, timeout=millis // 1000 + 600, logfile=os.path.join(outdir, "go_test.log"))
+    stats = {"race_detector": race, "millis": millis, "seed": seed}
+    if "[build failed]" in out or "[setup failed]" in out:
+        ctx.fail("harness", "C05 stress harness no longer builds against the current tree", detail=out[-3000:])
+        return stats
+    rp = os.path.join(outdir, "c05_stress.json")
+    if not os.path.exists(rp):
+        # the process died: unrecoverable runtime error (e.g. concurrent map read and map write)
+        m = re.search(r"(fatal error: [^\n]*|panic: [^\n]*)", out)
+        frames = re.findall(r"\n(github.com/AdguardTeam/AdGuardHome/internal/\S+)\(", out)
+        where = next((f for f in frames if "TestVerifC05" not in f), "?")
+        ctx.fail("property-failure", "server crashed under concurrent reconfiguration: %s in %s" % (m.group(1) if m else "test process died", _norm_fn(where)),
+                 finding_key="crash:" + _norm_fn(where), failing_input_found=True,
+                 detail={"case": {"id": "crash-%d" % seed, "seed": seed, "desc": {"kind": "crash", "seed": seed, "output": out[-6000:]}}})
+        return stats
+    rep = json.load(open(rp))
+    stats.update({"queries": rep.get("queries"), "admin_ops": rep.get("admin_ops"), "refused_by_access": rep.get("refused_by_access")})
+    for i, p in enumerate(rep.get("panics") or []):
+        frames = re.findall(r"\n(github.com/AdguardTeam/AdGuardHome/internal/\S+)\(", p)
+        where = next((f for f in frames if "TestVerifC05" not in f), "?")
+        ctx.fail("property-failure", "panic under concurrent reconfiguration: %s in %s" % (p.splitlines()[0], _norm_fn(where)),
+                 finding_key="panic:" + _norm_fn(where), failing_input_found=True,
+                 detail={"case": {"id": "panic-%d-%d" % (seed, i), "seed": seed, "desc": {"kind": "panic", "seed": seed, "panic": p}}})
+    for i, m in enumerate(rep.get("malformed") or []):
+        ctx.fail("property-failure", "in-flight query without a well-formed response: " + m, finding_key="malformed",
+                 failing_input_found=True, detail={"case": {"id": "malformed-%d-%d" % (seed, i), "seed": seed, "desc": {"kind": "malformed", "seed": seed, "what": m}}})
+    if rep.get("stalled"):
+        ctx.fail("property-failure", "stall: " + rep["stalled"].splitlines()[0], finding_key="stall", failing_input_found=True,
+                 detail={"case": {"id": "stall-%d" % seed, "seed": seed, "desc": {"kind": "stall", "seed": seed, "goroutines": rep["stalled"]}}})
+    # ---- race reports
+    if race:
+        text = ""
+        for f in sorted(os.listdir(outdir)):
+            if f.startswith("race."):
+                text += open(os.path.join(outdir, f), errors="replace").read()
+        bypos, byfn = {}, {}
+        for a in tbl.get("accesses") or []:
+            bypos.setdefault(a["pos"], set()).add(a["key"])
+        for k in known:
+            if "@" in k:
+                byfn.setdefault(_norm_fn(k.split("@", 1)[1]), set()).add(k)
+        badkeys = {a["key"] for a in tbl.get("accesses") or [] if not a["ok"]}
+        gaps = []
+        clusters = {}
+        for st in _parse_races(text):
+            sig = tuple(sorted("%s %s" % (s[0], "%s %s:%d" % (_norm_fn(s[1][0]), s[1][1], s[1][2]) if s[1] else "?") for s in st))
+            clusters.setdefault(sig, [0, st])[0] += 1
+        n_known = n_new = 0
+        for ci, (sig, (cnt, st)) in enumerate(sorted(clusters.items())):
+            if not all(s[1] for s in st):
+                continue  # a stack without a frame in /repo/internal: not ours to judge
+            keys = set()
+            for s in st:
+                keys |= bypos.get("%s:%d" % (s[1][1], s[1][2]), set())
+                keys |= byfn.get(_norm_fn(s[1][0]), set())
+            kk = sorted(keys & known)
+            if kk:
+                n_known += 1
+                ctx.fail("property-failure", "data race (known site): " + " vs ".join(sig), finding_key=kk[0], failing_input_found=True,
+                         detail={"case": {"id": "race-known-%d" % ci, "seed": seed, "desc": {"kind": "race", "pair": sig}}})
+            else:
+                n_new += 1
+                flagged = sorted(keys & badkeys)
+                if not flagged:
+                    gaps.append(" vs ".join(sig))
+                ctx.fail("property-failure", "data race: " + " vs ".join(sig) + (
+                    " (site also flagged by the lock table)" if flagged else
+                    " (the lock table calls both sites safe: translator gap or field outside the guard map)"),
+                         finding_key=flagged[0] if flagged else "race:" + "|".join(sig), failing_input_found=True,
+                         detail={"case": {"id": "race-%d-%d" % (seed, ci), "seed": seed,
+                                          "desc": {"kind": "race", "seed": seed, "reports": cnt, "stack_pair": [s[2] for s in st]}}})
+        stats.update({"race_reports": sum(c[0] for c in clusters.values()), "race_clusters": len(clusters),
+                      "race_clusters_at_known_sites": n_known, "race_clusters_new": n_new,
+                      "translator_gaps": gaps})
+    return stats
+
+
 def extra(ctx):
     path = os.path.join(ctx.VERIF, "work", "locktable.json")
     if any(f["kind"] == "translator" for f in ctx.failures) or not os.path.exists(path):
@@ -161,6 +294,14 @@ def extra(ctx):
                  % (u[0], u[1]), finding_key="unresolved:" + u[0], failing_input_found=True,
                  detail={"case": {"id": "unresolved-%d" % i, "desc": {"kind": "unresolved", "item": u}}})
 
+    # ---- search for a failing schedule
+    stress = []
+    if ctx.tier == "thorough":
+        for sd in (ctx.seed, ctx.seed + 1):
+            stress.append(_stress(ctx, tbl, known, True, 10000, sd))
+    else:
+        stress.append(_stress(ctx, tbl, known, False, 1500, ctx.seed))
+
     # ---- evidence
     present = {a["key"] for a in accesses} | {okey(o) for o in orders}
     checked_acc = [a for a in accesses if a["key"] not in known]
@@ -186,6 +327,8 @@ def extra(ctx):
             "known_findings_still_present": sorted(known & present),
             "known_findings_no_longer_present": sorted(known - present),
         },
+        "stress": stress,
+        "evaluations": sum((x.get("queries") or 0) + (x.get("admin_ops") or 0) for x in stress),
         "samples": [{"root": a["root"], "fn": a["fn"], "field": a["field"], "write": a["write"], "held": a["held"], "pos": a["pos"]}
                     for a in accesses[:: max(1, len(accesses) // 5)][:5]],
     })
